@@ -16,6 +16,13 @@
 // every run. What the kernel does inside one configuration (signal delivery order, scheduling of the library's
 // goroutines) is NOT controlled: that is why the level claimed is "exploration" over configurations.
 //
+// One schedule of the library's own goroutines IS controlled, in the cells "sched=monitor-late": package subprocess spawns
+// exactly one goroutine (monitoring.go), whose `go` statement is hooked through an instrumented copy of that file
+// (prebuild.sh, generated from /repo's working tree; without a hook installed it behaves like the original). In those
+// cells the goroutine waits before its first statement until the stop call has returned (Stop, Restart) or been made
+// (the other stops) — a schedule the Go runtime is free to produce and does produce under load. The command counts as
+// running by its announcement in the ledger; IsOn() is recorded, not required. These cells run one at a time.
+//
 // Oracle (reading taken = the weakest one):
 //   - survivor: every ledger process of the stopped generation that is in the direct child's process group (as the
 //     process itself reported it; a setsid-escapee is therefore excluded, as the statement excludes it) is gone from
